@@ -100,7 +100,7 @@ func init() {
 	mixinAssume := []string{
 		"documents are those go-openapi/spec loads, in serialization normal form (absent == zero value)",
 		"operation ids are unique within each document and none has the form <id>Mixin<N> of another (hypotheses of C18; the generator guarantees them)",
-		"extension keys are lower-case (x-...)",
+		"extension keys are x-... in any letter case (the spec model keeps them as written)",
 	}
 	reg(&PropDef{
 		ID: "C17", Level: "proof", FactsOK: true,
